@@ -79,7 +79,7 @@ func (it *Interp) strEq(a, b *StrV) *Term {
 				same = false
 				break
 			}
-			if ab[i].op == OpNum && ab[i].a != bb[i].a {
+			if ab[i].op == OpNum && (ab[i].a != bb[i].a || ab[i].b != bb[i].b) {
 				same = false
 				break
 			}
@@ -163,6 +163,14 @@ func (it *Interp) strEq(a, b *StrV) *Term {
 func numeralValue(s string, base int, style int) (uint64, bool) {
 	if len(s) == 0 {
 		return 0, false
+	}
+	if style > 0 {
+		// fixed width, zero padded
+		if len(s) != style {
+			return 0, false
+		}
+		v, err := strconv.ParseUint(s, base, 64)
+		return v, err == nil
 	}
 	if len(s) > 1 && s[0] == '0' {
 		return 0, false
